@@ -78,12 +78,16 @@ pub fn paid_tx_record(p: &ProofOfPayment, t: &Transaction) -> Record {
 pub struct RegFixture {
     pub base: SignedRegister,
     pub ops: Vec<RegisterOp>,
+    /// an op for this register signed by a key that has no write permission
+    pub stranger_op: RegisterOp,
+    reg: Register,
+    sig: bls::Signature,
 }
 pub fn reg_fixture(owner: u8, meta: &[u8]) -> RegFixture {
     let sk = bls_sk(owner);
     let reg = Register::new(sk.public_key(), XorName::from_content(meta), Permissions::new_with(vec![]));
     let sig = sk.sign(reg.bytes().unwrap());
-    let base = SignedRegister::new(reg.clone(), sig, BTreeSet::new());
+    let base = SignedRegister::new(reg.clone(), sig.clone(), BTreeSet::new());
     let mut crdt = RegisterCrdt::new(*reg.address());
     let mut ops = vec![];
     let none = BTreeSet::new();
@@ -91,9 +95,18 @@ pub fn reg_fixture(owner: u8, meta: &[u8]) -> RegFixture {
         let (_h, addr, d) = crdt.write(vec![i; 4], &none).unwrap();
         ops.push(RegisterOp::new(addr, d, &sk));
     }
-    RegFixture { base, ops }
+    let (_h, addr, d) = crdt.write(vec![9; 4], &none).unwrap();
+    let stranger_op = RegisterOp::new(addr, d, &bls_sk(owner.wrapping_add(40)));
+    RegFixture { base, ops, stranger_op, reg, sig }
 }
 impl RegFixture {
+    /// A well-formed register (valid owner signature) that carries the given owner ops *and* the stranger's op, built
+    /// without going through add_op: it fails verify().
+    pub fn with_ops_and_stranger(&self, idx: &[usize]) -> SignedRegister {
+        let mut ops: BTreeSet<RegisterOp> = idx.iter().map(|i| self.ops[*i].clone()).collect();
+        ops.insert(self.stranger_op.clone());
+        SignedRegister::new(self.reg.clone(), self.sig.clone(), ops)
+    }
     pub fn with_ops(&self, idx: &[usize]) -> SignedRegister {
         let mut r = self.base.clone();
         for i in idx {
